@@ -481,6 +481,12 @@ func anywhere(r rune, p *Parser) stateFn {
 		}
 		p.clear()
 		p.escGen += 1
+		if p.r.Buffered() > 0 {
+			// More input was read together with this ESC: it is not a
+			// lone Escape key press, however long it takes us to get
+			// to the next byte
+			return escape
+		}
 		gen := p.escGen
 		p.escTimeout = time.AfterFunc(10*time.Millisecond, func() {
 			p.mu.Lock()
